@@ -199,7 +199,9 @@ def run(tier):
         ]
     stress = {"threads": 4, "sections": 1500} if tier == "quick" else {"threads": 8, "sections": 10000}
     rare = [("wwr", 3, "C_WWR", (0, 0, 0))] if tier == "quick" else []     # thorough tours the 3-thread graph wrt completely
-    return LC.run(tier, tours, configs, configs_if_differs, specs, stress=stress, rare_tours=rare)
+    rel = [(t, sp) for t, sp in specs if t in (("dfs_wr", "cov4") if tier == "quick" else ("dfs_wr", "dfs_wwr", "cov4"))]
+    return LC.run(tier, tours, configs, configs_if_differs, specs, stress=stress, rare_tours=rare, release_specs=rel,
+                  probe_scenarios=["rww_before", "rwr_before", "rww_after", "rwr_after"])
 
 
 def replay(path):
